@@ -61,3 +61,13 @@ Proof.
   cbv zeta. split; [reflexivity|]. split; [|split; reflexivity].
   unfold cells_ok, cell_ok. cbn. repeat split; repeat constructor; cbn; intuition congruence.
 Qed.
+
+(* ---- the well-formedness hypothesis (pairwise distinct (neighbour, shift) keys per cell) discharged for the exact
+   clipping model: every site is looked at once and contributes at most one plane.  For the implementation it follows
+   from the neighbour stream delivering each (generator, image) once (C17) *)
+From MV Require Import Model.Cycle Model.CellExact Proofs.PlaneKeys.
+Theorem C12_model_planes_have_distinct_keys : forall dim lo hi g sites c,
+  NoDup (map site_key sites) -> build dim lo hi g sites = Some c ->
+  NoDup (ngb_keys c) /\ incl (ngb_keys c) (map site_key sites).
+Proof. exact build_plane_keys_distinct. Qed.
+Print Assumptions C12_model_planes_have_distinct_keys.
